@@ -328,6 +328,42 @@ theorem C02_cim_error_surfaces (C : EnvCodec) (fuel : Nat) (op : OpSpec) (hk : o
   rw [h1]
   simp only [h2]
 
+/-- **HTTP status branches, exact**: AuthError exactly for status 401, HTTPError exactly for every other
+    status but 200; the HTTPError carries the status and the CIMError header, and a PGErrorDetail entry
+    only together with a CIMError header -/
+theorem C02_http_status_branches (h : HttpResp) :
+    (httpLayer h = .error .authError ↔ h.status = 401) ∧
+    (httpLayer h = .error .httpError ↔ (h.status ≠ 200 ∧ h.status ≠ 401)) ∧
+    (httpErrorInfo h).status = h.status ∧
+    ((httpErrorInfo h).hasPGErrorDetail = true → (httpErrorInfo h).cimerror.isSome = true) := by
+  refine ⟨?_, ?_, rfl, ?_⟩
+  · unfold httpLayer
+    by_cases h1 : h.status ≠ 200
+    · by_cases h2 : h.status = 401 <;> simp [h1, h2]
+    · have h1' : h.status = 200 := by simpa using h1
+      cases hc : headerGet h.headers "Content-type" with
+      | none => simp [h1', pure, Except.pure]
+      | some ct =>
+        by_cases h3 : (!startsWith ct "application/xml" && !startsWith ct "text/xml") = true <;>
+          simp [h1', h3, pure, Except.pure]
+  · unfold httpLayer
+    by_cases h1 : h.status ≠ 200
+    · by_cases h2 : h.status = 401 <;> simp [h1, h2]
+    · have h1' : h.status = 200 := by simpa using h1
+      cases hc : headerGet h.headers "Content-type" with
+      | none => simp [h1', pure, Except.pure]
+      | some ct =>
+        by_cases h3 : (!startsWith ct "application/xml" && !startsWith ct "text/xml") = true <;>
+          simp [h1', h3, pure, Except.pure]
+  · unfold httpErrorInfo
+    simp only [Bool.and_eq_true]
+    intro h; exact h.1
+
+/-- non-vacuity: a 500 with CIMError and PGErrorDetail headers -/
+example : httpLayer ⟨500, [("CIMError".toList, ['x']), ("PGErrorDetail".toList, ['y'])]⟩ = .error .httpError ∧
+    (httpErrorInfo ⟨500, [("cimerror".toList, ['x']), ("PGErrorDetail".toList, ['y'])]⟩).hasPGErrorDetail = true :=
+  ⟨rfl, rfl⟩
+
 /-! ### transport: exceptions of requests / urllib3 -/
 
 /-- the full list of the WBEMConnection docstring: the response classes plus ConnectionError and
